@@ -14,6 +14,7 @@ from pandera.api.pandas.types import (
     is_table_or_field,
 )
 from pandera.backends.base import BaseCheckBackend
+from pandera.backends.pandas.error_formatters import _multiindex_to_frame
 
 
 class PandasCheckBackend(BaseCheckBackend):
@@ -276,6 +277,17 @@ class PandasCheckBackend(BaseCheckBackend):
         # collect failure cases across all columns. False values in check_output
         # are nulls.
         select_failure_cases = check_obj[~check_output]
+        if isinstance(select_failure_cases.index, pd.MultiIndex):
+            # rows of a MultiIndex frame are identified by the string
+            # representation of their index tuples, see
+            # error_formatters.reshape_failure_cases
+            select_failure_cases = select_failure_cases.set_axis(
+                _multiindex_to_frame(select_failure_cases)
+                .apply(tuple, axis=1)
+                .astype(str)
+                .to_numpy(),
+                axis=0,
+            )
         failure_cases_list: List[pd.DataFrame] = []
         for i, col in enumerate(select_failure_cases.columns):
             # select by position: column labels may be repeated
